@@ -11,7 +11,12 @@ from __future__ import annotations
 
 import ast
 
+import itertools
+
+import numpy as np
+
 from ..core import AnalysisError, call_name, dotted, func_params, is_self_attr
+from .. import fdx
 
 
 def _names(e):
@@ -26,7 +31,14 @@ def run(ctx):
         'C18.b ResultDict JSON: packed-record fields written == fields the unpacker accepts; binary flag provenance; EngineResult adds job_id on both sides',
         'C18.c wrapping samplers (ZerosSampler, ValidatingSampler, ProcessorSampler, SimulatesSamples) forward every argument to what they wrap and validate first',
     ]
-    ctx.not_decided += ['endianness, shapes and mixed-radix digit conversions', 'histograms, data frames, string forms', 'concatenation of results']
+    ctx.decided += [
+        'C18.d digit/bit folds keep an unbounded Python-int accumulator: elements of the caller\'s (possibly numpy-typed) sequences enter it only through int(...) or a truth test',
+        'C18.e big_endian_{bits,digits}_to_int / int_to_{bits,digits} (interpreted) compute the positional value and are mutual inverses for every digit string of '
+        'every mixed radix in {2,3}^n, n<=4, and for 70-position strings given as Python ints, bool, uint8 and int64 arrays',
+        'C18.f histogram accumulation over batches / repetitions is additive',
+        'C18.g axis discipline: records are (repetitions, instances, qubits) at every conversion site (abstract axis labels)',
+    ]
+    ctx.not_decided += ['data frames, string forms', 'bit packing arithmetic of _pack_digits', 'fold functions supplied by the caller']
     sm = repo.cls('cirq.work.sampler.Sampler')
     rel = sm.mod.rel
 
@@ -213,3 +225,355 @@ def run(ctx):
     ej, ef = er.methods.get('_json_dict_'), er.methods.get('_from_json_dict_')
     ok = ej is not None and ef is not None and "'job_id'" in ast.unparse(ej) and 'job_id' in func_params(ef) and 'job_id=job_id' in ast.unparse(ef)
     ctx.ob('C18.b', f'{er.qual}:job_id', ok, '' if ok else 'EngineResult does not write and read job_id symmetrically', er.mod.rel, er.node.lineno)
+
+
+    _digit_rules(ctx, repo)
+    _histogram_rule(ctx, repo, rm)
+    _axis_rule(ctx, repo, rm, rd)
+
+
+def _value(digits, bases):
+    v = 0
+    for d, b in zip(digits, bases):
+        v = v * int(b) + int(d)
+    return v
+
+
+def _digit_rules(ctx, repo):
+    dm = repo.module('cirq-core/cirq/value/digits.py')
+    fns = {}
+    for f in dm.tree.body:
+        if isinstance(f, ast.FunctionDef) and not any(ast.unparse(d) == 'overload' for d in f.decorator_list):
+            fns[f.name] = f
+    need = ('big_endian_bits_to_int', 'big_endian_int_to_bits', 'big_endian_digits_to_int', 'big_endian_int_to_digits')
+    for nme in need:
+        if nme not in fns:
+            raise AnalysisError(f'cirq.value.digits.{nme} vanished')
+
+    # ---------------------------------------------------------------- C18.d
+    ctx.rule('C18.d', 'in big_endian_*_to_int the returned accumulator starts as a Python int and every operand that comes from the input sequences is '
+             'coerced with int(...) (or only tested for truth): a numpy scalar operand would turn the accumulator into a fixed-width integer that wraps', floor=2, style='TNT')
+    for nme in ('big_endian_bits_to_int', 'big_endian_digits_to_int'):
+        fn = fns[nme]
+        rets = [r.value.id for r in ast.walk(fn) if isinstance(r, ast.Return) and isinstance(r.value, ast.Name)]
+        if not rets:
+            raise AnalysisError(f'{nme}: no returned accumulator')
+        acc = rets[0]
+        params = set(func_params(fn))
+        elems = set()
+        clean = set()     # names re-bound to int-coerced copies of a parameter
+        for st in ast.walk(fn):
+            if isinstance(st, ast.Assign) and len(st.targets) == 1 and isinstance(st.targets[0], ast.Name):
+                v = st.value
+                inner = v.args[0] if isinstance(v, ast.Call) and call_name(v) in ('tuple', 'list') and v.args else v
+                if isinstance(inner, (ast.GeneratorExp, ast.ListComp)) and isinstance(inner.elt, ast.Call) and call_name(inner.elt) == 'int':
+                    clean.add(st.targets[0].id)
+                elif isinstance(inner, ast.Call) and call_name(inner) == 'map' and inner.args and ast.unparse(inner.args[0]) == 'int':
+                    clean.add(st.targets[0].id)
+        for st in ast.walk(fn):
+            if isinstance(st, ast.For):
+                it_names = {n.id for n in ast.walk(st.iter) if isinstance(n, ast.Name)}
+                if it_names & params and not (it_names & params) <= clean:
+                    elems |= {n.id for n in ast.walk(st.target) if isinstance(n, ast.Name)}
+        bad = []
+        n_upd = 0
+        for st in ast.walk(fn):
+            tgt = None
+            if isinstance(st, ast.AugAssign) and isinstance(st.target, ast.Name) and st.target.id == acc:
+                tgt = st.value
+            elif isinstance(st, ast.Assign) and any(isinstance(t, ast.Name) and t.id == acc for t in st.targets) and not isinstance(st.value, ast.Constant):
+                tgt = st.value
+            if tgt is None:
+                continue
+            n_upd += 1
+            coerced = {id(n) for c in ast.walk(tgt) if isinstance(c, ast.Call) and call_name(c) == 'int' for n in ast.walk(c)}
+            for n in ast.walk(tgt):
+                if isinstance(n, ast.Name) and n.id in elems and id(n) not in coerced:
+                    bad.append(f'{ast.unparse(st)} (line {st.lineno})')
+        if n_upd == 0:
+            raise AnalysisError(f'{nme}: accumulator {acc} is never updated')
+        ctx.ob('C18.d', f'cirq.value.digits.{nme}:{acc}', not bad,
+               '' if not bad else f'`{acc}` absorbs raw sequence elements in {bad}: with numpy-typed records (what simulators produce) it becomes a fixed-width integer and wraps '
+               '(10 uint8 ones fold to 255, 70 int64 ones to -1)', dm.rel, fn.lineno)
+
+    # ---------------------------------------------------------------- C18.e
+    ctx.rule('C18.e', 'interpretation of the four conversion functions: value(digits, bases) = sum d_i prod_{j>i} b_j, both directions, all digit strings of all '
+             'radix vectors in {2,3}^n (n<=4), int base with digit_count, and 70-position strings in four element types', floor=60, style='FDX')
+
+    def call(nme, **kw):
+        it = fdx.NumInterp(dict(kw))
+        try:
+            return it.call(fns[nme])
+        except fdx.Raised as e:
+            return ('raised', str(e))
+        except fdx.Unsupported as e:
+            raise AnalysisError(f'{nme} is outside the interpretable subset: {e}')
+
+    def same_int(got, want):
+        return isinstance(got, (int, np.integer)) and not isinstance(got, bool) and int(got) == want and (isinstance(got, int) or np.iinfo(type(got)).max >= want)
+    for n in range(0, 5):
+        for bases in itertools.product((2, 3), repeat=n):
+            first_bad = None
+            for digits in itertools.product(*[range(b) for b in bases]):
+                want = _value(digits, bases)
+                g1 = call('big_endian_digits_to_int', digits=list(digits), base=list(bases))
+                g2 = call('big_endian_int_to_digits', val=want, base=list(bases), digit_count=None)
+                if not same_int(g1, want) and first_bad is None:
+                    first_bad = f'digits_to_int({list(digits)}, base={list(bases)}) -> {g1!r}, expected {want}'
+                if (not isinstance(g2, list) or [int(x) for x in g2] != list(digits)) and first_bad is None:
+                    first_bad = f'int_to_digits({want}, base={list(bases)}) -> {g2!r}, expected {list(digits)}'
+            ctx.ob('C18.e', f'cirq.value.digits:mixed-radix:{bases}', first_bad is None, first_bad or '', dm.rel, fns['big_endian_digits_to_int'].lineno)
+        for b in (2, 3, 10):
+            first_bad = None
+            for digits in itertools.product(range(b), repeat=n) if b < 10 or n < 3 else [tuple((7 * k + 3) % 10 for k in range(n))]:
+                want = _value(digits, (b,) * n)
+                g1 = call('big_endian_digits_to_int', digits=list(digits), base=b)
+                g2 = call('big_endian_int_to_digits', val=want, base=b, digit_count=n)
+                if not same_int(g1, want) and first_bad is None:
+                    first_bad = f'digits_to_int({list(digits)}, base={b}) -> {g1!r}, expected {want}'
+                if (not isinstance(g2, list) or [int(x) for x in g2] != list(digits)) and first_bad is None:
+                    first_bad = f'int_to_digits({want}, digit_count={n}, base={b}) -> {g2!r}, expected {list(digits)}'
+                if b == 2:
+                    g3 = call('big_endian_bits_to_int', bits=list(digits))
+                    g4 = call('big_endian_int_to_bits', val=want, bit_count=n)
+                    if not same_int(g3, want) and first_bad is None:
+                        first_bad = f'bits_to_int({list(digits)}) -> {g3!r}, expected {want}'
+                    if (not isinstance(g4, list) or [int(x) for x in g4] != list(digits)) and first_bad is None:
+                        first_bad = f'int_to_bits({want}, bit_count={n}) -> {g4!r}, expected {list(digits)}'
+            ctx.ob('C18.e', f'cirq.value.digits:uniform-base:{b}:n={n}', first_bad is None, first_bad or '', dm.rel, fns['big_endian_int_to_digits'].lineno)
+    patterns = {'ones': [1] * 70, 'alternating': [k % 2 for k in range(70)], 'msb-only': [1] + [0] * 69, 'asymmetric': [1 if (k * k) % 7 in (1, 2) else 0 for k in range(70)]}
+    kinds = {'python ints': lambda v: list(v), 'bool array': lambda v: np.array(v, dtype=bool), 'uint8 array': lambda v: np.array(v, dtype=np.uint8),
+             'int64 array': lambda v: np.array(v, dtype=np.int64)}
+    for pn, bits in patterns.items():
+        want = _value(bits, [2] * 70)
+        for kn, mk in kinds.items():
+            g1 = call('big_endian_bits_to_int', bits=mk(bits))
+            g2 = call('big_endian_digits_to_int', digits=mk(bits), base=2)
+            g3 = call('big_endian_digits_to_int', digits=mk(bits), base=[2] * 70)
+            bad = [f'{nm} -> {g!r}' for nm, g in (('bits_to_int', g1), ('digits_to_int(base=2)', g2), ('digits_to_int(base=[2]*70)', g3))
+                   if not (isinstance(g, int) and not isinstance(g, bool) and g == want)]
+            ctx.ob('C18.e', f'cirq.value.digits:70-bit:{pn}:{kn}', not bad, '' if not bad else f'70 positions given as {kn}: {"; ".join(bad)[:300]} (expected the Python int {want})',
+                   dm.rel, fns['big_endian_digits_to_int'].lineno)
+        g = call('big_endian_int_to_digits', val=want, base=2, digit_count=70)
+        g_ = call('big_endian_int_to_bits', val=want, bit_count=70)
+        ok = isinstance(g, list) and [int(x) for x in g] == bits and isinstance(g_, list) and [int(x) for x in g_] == bits
+        ctx.ob('C18.e', f'cirq.value.digits:70-bit:{pn}:inverse', ok, '' if ok else 'int_to_digits / int_to_bits do not recover the 70 positions', dm.rel, fns['big_endian_int_to_digits'].lineno)
+
+
+def _histogram_rule(ctx, repo, rm):
+    ctx.rule('C18.f', 'Result._vectorized_histogram / multi_measurement_histogram: the Counter that is returned is only ever added to inside the loop over batches / repetitions '
+             '(update, +=, c[k] += n); |=, &= or plain assignment would keep one batch\'s count instead of the sum', floor=2, style='MPT')
+    res = repo.cls('cirq.study.result.Result')
+    for mn in ('_vectorized_histogram', 'multi_measurement_histogram'):
+        fn = res.methods.get(mn)
+        if fn is None:
+            raise AnalysisError(f'Result.{mn} vanished')
+        counters = set()
+        for st in ast.walk(fn):
+            tgt = val = None
+            if isinstance(st, ast.Assign) and len(st.targets) == 1:
+                tgt, val = st.targets[0], st.value
+            elif isinstance(st, ast.AnnAssign) and st.value is not None:
+                tgt, val = st.target, st.value
+            if isinstance(tgt, ast.Name) and isinstance(val, ast.Call) and call_name(val) == 'Counter':
+                counters.add(tgt.id)
+        loops = [l for l in ast.walk(fn) if isinstance(l, (ast.For, ast.While))]
+        found = False
+        for c in sorted(counters):
+            bad = []
+            adds = 0
+            for l in loops:
+                for st in ast.walk(l):
+                    if isinstance(st, ast.AugAssign):
+                        t = st.target
+                        base = t.value if isinstance(t, ast.Subscript) else t
+                        if isinstance(base, ast.Name) and base.id == c:
+                            if isinstance(st.op, ast.Add):
+                                adds += 1
+                            else:
+                                bad.append(ast.unparse(st))
+                    elif isinstance(st, ast.Assign):
+                        for t in st.targets:
+                            base = t.value if isinstance(t, ast.Subscript) else t
+                            if isinstance(base, ast.Name) and base.id == c:
+                                bad.append(ast.unparse(st))
+                    elif isinstance(st, ast.Call) and isinstance(st.func, ast.Attribute) and isinstance(st.func.value, ast.Name) and st.func.value.id == c:
+                        if st.func.attr == 'update':
+                            adds += 1
+                        elif st.func.attr in ('subtract', 'clear', 'pop', 'setdefault'):
+                            bad.append(ast.unparse(st))
+            if adds or bad:
+                found = True
+                ctx.ob('C18.f', f'{res.qual}.{mn}:{c}', not bad, '' if not bad else f'counts are merged with {bad}: an outcome that occurs in two batches keeps one batch\'s count, not the sum',
+                       rm.rel, fn.lineno)
+        if not found:
+            raise AnalysisError(f'Result.{mn}: no Counter accumulated in a loop')
+
+
+def _axis_rule(ctx, repo, rm, rd):
+    from ..axes import Arr, AxisInterp, Dim, Lst, Unknown, as_arr, strip_units
+    ctx.rule('C18.g', 'axis labels: at every site that builds or converts record arrays the layout is (repetitions, instances, qubits): a 2-D view exists only under '
+             'instances == 1, the instance axis is inserted in the middle, concatenation is along repetitions, per-instance samples are stacked and then '
+             'transposed (never reshaped across axes), padded records keep their axes', floor=8, style='FDX')
+    RIQ = ('R', 'I', 'Q')
+
+    def site(key, rel, line, fn):
+        try:
+            ok, msg = fn()
+        except Unknown as e:
+            raise AnalysisError(f'C18.g {key}: array expression outside the axis interpreter: {e}')
+        ctx.ob('C18.g', key, ok, '' if ok else msg, rel, line)
+
+    # S1  ResultDict.measurements: records -> 2-D
+    fn1 = rd.methods.get('measurements')
+    loops = [l for l in ast.walk(fn1) if isinstance(l, ast.For) and '_records' in ast.unparse(l.iter)] if fn1 is not None else []
+    if not loops:
+        raise AnalysisError('ResultDict.measurements: loop over the records vanished')
+
+    def s1():
+        l = loops[0]
+        nm = l.target.elts[1].id
+        it = AxisInterp({nm: Arr(RIQ)})
+        got = []
+        it.run(l.body, on_store=lambda st, t, tv, it_: got.append((it_.ev(st.value), set(it_.units))))
+        if not got:
+            raise Unknown('no store into the measurements mapping')
+        v, units = got[0]
+        labels = as_arr(v).labels
+        ok = len(labels) == 2 and strip_units(labels, units) == ('R', 'Q') and 'I' in units
+        return ok, f'2-D measurements are built as {labels} from records (R, I, Q) with unit axes {sorted(units)}: expected (R, Q) under the guard instances == 1'
+    site(f'{rd.qual}.measurements:records->measurements', rm.rel, loops[0].lineno, s1)
+
+    # S2  ResultDict.records: 2-D -> records
+    fn2 = rd.methods.get('records')
+    comps = [c for c in ast.walk(fn2) if isinstance(c, ast.DictComp) and '_measurements' in ast.unparse(c.generators[0].iter)] if fn2 is not None else []
+    if not comps:
+        raise AnalysisError('ResultDict.records: conversion from measurements vanished')
+
+    def s2():
+        c = comps[0]
+        nm = c.generators[0].target.elts[1].id
+        it = AxisInterp({nm: Arr(('R', 'Q'))})
+        labels = as_arr(it.ev(c.value)).labels
+        return labels == ('R', '1', 'Q'), f'records are built from 2-D measurements (R, Q) as {labels}: the unit instance axis must be the middle one'
+    site(f'{rd.qual}.records:measurements->records', rm.rel, comps[0].lineno, s2)
+
+    # S3  ResultDict.__add__: concatenation along repetitions
+    fn3 = rd.methods.get('__add__') or repo.cls('cirq.study.result.Result').methods.get('__add__')
+    if fn3 is None:
+        raise AnalysisError('ResultDict.__add__ vanished')
+
+    def s3():
+        def hook(n, it_):
+            if isinstance(n, ast.Subscript) and isinstance(n.value, ast.Attribute) and n.value.attr in ('records', '_records'):
+                return Arr(RIQ)
+            return NotImplemented
+        it = AxisInterp({}, hook=hook)
+        got = []
+        for l in [x for x in ast.walk(fn3) if isinstance(x, ast.For)]:
+            it.run(l.body, on_store=lambda st, t, tv, it_: got.append(it_.ev(st.value)))
+        if not got:
+            raise Unknown('no concatenated record stored')
+        axes_ = [e[1] for e in it.events if e[0] == 'concat-axis']
+        labels = as_arr(got[0]).labels
+        return labels == RIQ and axes_ == ['R'], f'results are concatenated along {axes_ or it.events} giving {labels}: repetitions of both operands must be appended on axis R'
+    site(f'{rd.qual}.__add__:concatenate', rm.rel, fn3.lineno, s3)
+
+    # S4  StepResult.sample_measurement_ops: stack per-instance samples
+    sr = repo.cls('cirq.sim.simulator.StepResult')
+    fn4 = sr.methods.get('sample_measurement_ops')
+    if fn4 is None:
+        raise AnalysisError('StepResult.sample_measurement_ops vanished')
+
+    def qhook(n, it_):
+        if isinstance(n, ast.Call) and call_name(n) == 'len' and n.args and isinstance(n.args[0], ast.Attribute) and n.args[0].attr == 'qubits':
+            return Dim('Q')
+        return NotImplemented
+
+    def s4():
+        outs = [st for st in ast.walk(fn4) if isinstance(st, ast.Assign) and isinstance(st.targets[0], ast.Name) and st.targets[0].id == 'out']
+        if not outs:
+            raise Unknown('per-measurement sample array `out` vanished')
+        it = AxisInterp({'repetitions': Dim('R')}, hook=qhook)
+        out = as_arr(it.ev(outs[0].value))
+        if out.labels != ('R', 'Q'):
+            return False, f'per-measurement samples are allocated as {out.labels}, expected (R, Q)'
+        comps4 = [c for c in ast.walk(fn4) if isinstance(c, ast.DictComp) and 'results' in ast.unparse(c.generators[0].iter)]
+        if not comps4:
+            raise Unknown('stacking of repeated-key samples vanished')
+        c = comps4[0]
+        nm = c.generators[0].target.elts[1].id
+        it2 = AxisInterp({nm: Lst('I', out), 'repetitions': Dim('R')}, hook=qhook)
+        labels = as_arr(it2.ev(c.value)).labels
+        return labels == RIQ, (f'repeated-key samples (a list over instances of (R, Q) arrays) become {labels}' +
+                               (' - a reshape across axes scrambles repetitions and instances' if 'MIXED' in labels else '') + ': expected (R, I, Q)')
+    site(f'{sr.qual}.sample_measurement_ops:repeated-keys', sr.mod.rel, fn4.lineno, s4)
+
+    # S5  SimulatesSamples.run_sweep_iter: empty records are 3-D
+    ss = repo.cls('cirq.sim.simulator.SimulatesSamples')
+    fn5 = ss.methods.get('run_sweep_iter')
+
+    def s5():
+        calls = [c for c in ast.walk(fn5) if isinstance(c, ast.Call) and call_name(c) in ('empty', 'zeros')]
+        if not calls:
+            raise Unknown('zero-repetition records vanished')
+        labels = as_arr(AxisInterp({'repetitions': Dim('R')}).ev(calls[0])).labels
+        return len(labels) == 3 and labels[0] in ('#0', 'R'), f'zero-repetition records have layout {labels}: they must be 3-D with an empty repetition axis first'
+    site(f'{ss.qual}.run_sweep_iter:zero-repetitions', ss.mod.rel, fn5.lineno, s5)
+
+    # S6  SimulatorBase._run: padding of per-repetition records
+    sb = repo.cls('cirq.sim.simulator_base.SimulatorBase')
+    fn6 = sb.methods.get('_run')
+    pads = [f for f in ast.walk(fn6) if isinstance(f, ast.FunctionDef) and f is not fn6 and len(f.args.args) == 1] if fn6 is not None else []
+    if not pads:
+        raise AnalysisError('SimulatorBase._run: the padding helper vanished')
+
+    def s6():
+        pf = pads[0]
+        it = AxisInterp({pf.args.args[0].arg: Lst('R', Lst('I', Lst('Q', 0)))})
+        bad = []
+
+        def on_store(st, t, tv, it_):
+            v = as_arr(it_.ev(st.value)).labels
+            if tv is None or as_arr(tv).labels != v:
+                bad.append(f'{ast.unparse(t)} (layout {None if tv is None else as_arr(tv).labels}) = {ast.unparse(st.value)} (layout {v})')
+        it.run(pf.body, on_store=on_store)
+        rets = [r for r in ast.walk(pf) if isinstance(r, ast.Return) and r.value is not None]
+        if not rets:
+            raise Unknown('padding helper returns nothing')
+        labels = as_arr(it.ev(rets[0].value)).labels
+        return labels == RIQ and not bad, f'padded records have layout {labels}; mismatched stores: {bad}: expected (R, I, Q) filled slice by slice with (I, Q) blocks'
+    site(f'{sb.qual}._run:pad-records', sb.mod.rel, pads[0].lineno, s6)
+
+    # S7  ZerosSampler
+    zs = repo.cls('cirq.work.zeros_sampler.ZerosSampler')
+    fn7 = zs.methods.get('run_sweep')
+
+    def s7():
+        calls = [c for c in ast.walk(fn7) if isinstance(c, ast.Call) and call_name(c) == 'zeros']
+        if not calls:
+            raise Unknown('np.zeros vanished')
+        dc = [c for c in ast.walk(fn7) if isinstance(c, ast.DictComp)]
+        env = {'repetitions': Dim('R')}
+        if dc and isinstance(dc[0].generators[0].target, ast.Tuple) and isinstance(dc[0].generators[0].target.elts[1], ast.Tuple):
+            a, b = dc[0].generators[0].target.elts[1].elts
+            env[a.id] = Dim('I')
+            env[b.id] = Lst('Q', 0)
+        labels = as_arr(AxisInterp(env).ev(calls[0])).labels
+        return labels == RIQ, f'ZerosSampler allocates records as {labels}, expected (R, I, Q)'
+    site(f'{zs.qual}.run_sweep:allocate', zs.mod.rel, fn7.lineno, s7)
+
+    # S8  histogram input is the 2-D view split as (repetitions, qubits)
+    res = repo.cls('cirq.study.result.Result')
+    fn8 = res.methods.get('_vectorized_histogram')
+
+    def s8():
+        un = [st for st in ast.walk(fn8) if isinstance(st, ast.Assign) and isinstance(st.targets[0], ast.Tuple) and isinstance(st.value, ast.Attribute) and st.value.attr == 'shape']
+        if not un:
+            raise Unknown('shape unpacking vanished')
+        names = [e.id for e in un[0].targets[0].elts]
+        ok = len(names) == 2 and 'rep' in names[0] and 'qubit' in names[1]
+        loops8 = [l for l in ast.walk(fn8) if isinstance(l, ast.For)]
+        ok2 = bool(loops8) and names[0] in ast.unparse(loops8[0].iter)
+        return ok and ok2, f'the 2-D measurements are unpacked as {names} and batched over {ast.unparse(loops8[0].iter) if loops8 else None}: axis 0 is repetitions, axis 1 qubits'
+    site(f'{res.qual}._vectorized_histogram:axes', rm.rel, fn8.lineno, s8)
